@@ -1244,6 +1244,11 @@ def oracle(ctx, case, A, B, C):
     dAC = compare_runs(A, C)
     for comp in ("params", "buffer", "actions"):
         if comp not in dAC:
+            if comp == "actions" and "params" in dAC and "buffer" in dAC:
+                # a handful of discrete actions can coincide for two seeds by chance (seen at thorough scale: A2C, one
+                # env, a few steps) while parameters and buffer contents differ: not evidence that the seed is ignored
+                rep.count("actions_coincide_for_two_seeds_by_chance")
+                continue
             rep.violation("changing only the seed does not change the result", case,
                           {"kind": "seed_ignored", "component": comp}, {"differing": sorted(dAC)})
             return False
